@@ -112,6 +112,17 @@ func replicaSetChanges(rec *mon.Recorder, c int) {
 		}
 		return l
 	}
+	// one more under-replicated dataset, kept out of the comparisons below: it is deleted once node 3 has been given
+	// its replicas (a replica acquired after the dataset was created must stop serving like any other)
+	doomedId, doomedMeta, derr := cl.CreateDataset(0, 2, uint32(1+rng.Intn(3)), 3, pb.Space_Euclidean)
+	if derr != nil {
+		rec.Inconclusive(desc + ": create: " + derr.Error())
+		return
+	}
+	var doomedParts []uuid.UUID
+	for _, p := range doomedMeta.GetPartitions() {
+		doomedParts = append(doomedParts, uuid.FromBytesOrNil(p.GetId()))
+	}
 	// the assignment as one node lists it and as it routes by it
 	type view struct{ listed, effective string }
 	look := func(n *sim.Node) (view, bool) {
@@ -247,6 +258,33 @@ func replicaSetChanges(rec *mon.Recorder, c int) {
 	}
 	rec.Count("replica_set_changes_observed", 1)
 	afterAdd := agreed
+	// the extra dataset: once node 3 runs its replicas, it is deleted
+	if cl.WaitFor(10*time.Second, func() bool {
+		for _, pid := range doomedParts {
+			if cl.Nodes[2].PartitionRaft(doomedId, pid) == nil {
+				return false
+			}
+		}
+		return true
+	}) == nil {
+		var delErr error
+		if cl.Guard(10*time.Second, func() { delErr = cl.Nodes[0].DM().Delete(context.Background(), doomedId) }) && delErr == nil {
+			steps = append(steps, "delete of the dataset whose replicas node 3 acquired after it was created")
+			for _, n := range live() {
+				for _, pid := range doomedParts {
+					pid := pid
+					if cl.WaitFor(10*time.Second, func() bool {
+						_, still := n.In.ZeroGroup.VerifTransport().VerifGroups()[pid]
+						return !still
+					}) != nil {
+						rec.Violation("catalogue:deleted-partition-still-served:on-a-replica-added-after-the-dataset-was-created", fmt.Sprintf("%s: node %d still runs a raft group for partition %s of dataset %s, whose deletion was acknowledged", desc, n.Id, pid, doomedId), replay())
+						return
+					}
+				}
+			}
+			rec.Count("deletions_of_datasets_with_replicas_added_later", 1)
+		}
+	}
 	// compaction + restart of a member: replay / snapshot restore must give the same assignment
 	victim := cl.Nodes[rng.Intn(3)]
 	compact := c%2 == 0
